@@ -81,6 +81,18 @@ impl Module for Node {
             schedule_in(Message::default().kind(7), Duration::from_millis(20 + des::runtime::random::<u64>() % 10));
         }
     }
+    fn at_sim_end(&mut self) -> Result<(), RuntimeError> {
+        // last words: sent when nothing is processed any more; they must not surface anywhere
+        let me = current().path().to_string();
+        lg(&self.log, format!("{me} end r={}", des::runtime::random::<u32>()));
+        for g in current().gates() {
+            if g.kind() == des::net::gate::GateKind::Endpoint {
+                send(Message::default().kind(9), g);
+            }
+        }
+        schedule_in(Message::default().kind(9), Duration::from_millis(1));
+        Ok(())
+    }
     fn handle_message(&mut self, m: Message) {
         let me = current().path().to_string();
         self.n += 1;
@@ -208,7 +220,7 @@ impl Property for C04 {
     fn rule(&self, tier: Tier) -> String {
         format!(
             "grid: topology {{pair, ring of 3, star of 3 with submodules and a gate cluster, NDL-built network of 7 with a module cluster and four gate groups per module type}} x channel jitter {{0, 1 ms}} x module restart at a random-drawn time on/off x extra interval/sample tasks on/off = 32 models, x seeds {:?}; \
-             every module draws random() in handlers and tasks, runs an unbiased 4-way select! over equal deadlines and a receive, and sends over random subsets of its gates; each (model, seed) is run by two different worker processes, in each of them twice (the second time after other simulations ran in that process); \
+             every module draws random() in handlers and tasks, sends last messages from at_sim_end (which must not surface in any later simulation), runs an unbiased 4-way select! over equal deadlines and a receive, and sends over random subsets of its gates; each (model, seed) is run by two different worker processes, in each of them twice (the second time after other simulations ran in that process); \
              the complete traces (time, module path, callback, message kind/id, drawn values, select branch, tick times, final time, event count, result) must be identical in all four executions; per model the traces of different seeds must differ; \
              a case is one (model, seed); non-trivial = every case (all draw randomness)",
             seeds(0, tier)
